@@ -21,9 +21,9 @@ type Key struct {
 	// (field name, JSON value), sorted by name; see options.go. Empty on the pinned tree.
 	Extra [][2]string `json:"extra,omitempty"`
 	// Ref is the result of a lone first call in a fresh, uninstrumented process.
-	Ref      string `json:"ref,omitempty"`
-	RefOK    bool   `json:"ref_ok"`
-	Excluded string `json:"excluded,omitempty"`
+	Ref      string   `json:"ref,omitempty"`
+	RefOK    bool     `json:"ref_ok"`
+	Excluded string   `json:"excluded,omitempty"`
 	Tags     []string `json:"tags,omitempty"`
 }
 
@@ -153,11 +153,36 @@ var curated = []string{
 	"T | where a == 1 | extend x = now(1) | where iif(a) | summarize count(1) by k",
 	"T | join (U | where not(1, 2)) on k | where tolower() == 'x' | project toupper(a, b)",
 	"let x = 1; T | where isnotnull() | where x == 1 | extend y = countif() | where $left.a == 1",
+	// mistyped names: whatever ranks the known names by closeness meets ties here
+	"T | ta", "T | tat 5", "T | tak 5", "T | wher a == 1", "T | sor by a", "T | tp 3 by a", "T | coun", "T | a", "T | jion (U) on k", "T | ectend x = 1 | projct x",
+	"T | join kind=iner (U) on k", "T | join kind=leftoute (U) on k", "T | join kind=in (U) on k",
+	"T | where tolowr(a) == 'x' and isnul(b) | project strca(a, b), if(a, 1, 2)",
+	"T | sort by a des, b ascending nulls frist",
+	// lets whose SQL doubles at every step (64 KiB and more of SQL from a short source)
+	expandingLets("T | where s == v12", 12, false),
+	expandingLets("U | project v12, v2", 12, true),
+	expandingLets("T | count", 11, false) + "; let w = strcat(v11, v11, v11)",
 	// long pipelines: dozens of sub-queries
 	"T" + strings.Repeat(" | where a > 1", 20),
 	"T" + strings.Repeat(" | where a > 1 | project a, b | extend c = a + b", 9),
 	"T" + strings.Repeat(" | summarize n = count() by k | where n > x", 12) + " | join (U" + strings.Repeat(" | where b < 2", 18) + ") on k",
 	"let x = 1; T" + strings.Repeat(" | extend y = x | where y == x", 33),
+}
+
+// expandingLets builds a chain of lets each of which mentions the previous one twice.
+func expandingLets(query string, n int, spread bool) string {
+	var sb strings.Builder
+	sb.WriteString("let v0 = 'abcdefghijklmnopqrstuvwxyz012345';")
+	for i := 1; i <= n; i++ {
+		if spread {
+			sb.WriteString("\n  ")
+		} else {
+			sb.WriteString(" ")
+		}
+		fmt.Fprintf(&sb, "let v%d = strcat(v%d, v%d);", i, i-1, i-1)
+	}
+	sb.WriteString("\n" + query)
+	return sb.String()
 }
 
 // GenPool generates the workload pool for a base seed: every source under several parameter maps.
